@@ -7,6 +7,10 @@
 //	c04.ccm     the same for gmsm/cipher.NewCCM*
 //	c04.wrap    GCM with constructed nonces whose pre-counter block J0 makes the 32-bit
 //	            block counter wrap inside the message
+//	c04.reuse   histories on ONE sm4 block: several AEADs with different constructors, nonce and
+//	            tag sizes are made from it and used interleaved; each must behave as the reference
+//	            for ITS OWN parameters (a block that caches per-key GCM state must not leak
+//	            parameters from one AEAD into the next)
 //	c04.tamper  every single-byte alteration of ct||tag, nonce, aad, truncations and length
 //	            changes must be refused with a nil result and a zeroed output region
 package c04
@@ -26,6 +30,7 @@ func init() {
 	reg.Register("c04.ccm", "C04", ccmGrid)
 	reg.Register("c04.wrap", "C04", gcmWrap)
 	reg.Register("c04.tamper", "C04", tamper)
+	reg.Register("c04.reuse", "C04", reuse)
 }
 
 func selfTest(x *mon.Ctx) {
@@ -44,23 +49,36 @@ var ptCycle = []int{0, 1, 15, 16, 17, 31, 32, 33, 48, 63, 64, 65, 79, 80, 81, 96
 
 // modePair enumerates (Seal dst mode, Open dst mode, input placement, output placement)
 // so that consecutive integers cycle through all of them.
-func modePair(i int) (ms, mo dstMode, hiIn, hiOut bool) {
+//
+// Placement: two of three cases put the buffers against a guard page (inputs and
+// outputs independently at the lower or the upper one); every third case uses
+// misaligned buffers - inputs at misOffsets[j], outputs at misOffsets[j+2], nonce and
+// aad at further offsets - with j advancing from case to case.
+func modePair(i int) (ms, mo dstMode, pIn, pOut pos) {
 	ms = dstMode(i % int(nDstModes))
 	mo = dstMode((i/int(nDstModes) + i) % int(nDstModes))
-	hiIn = (i/3)&1 == 0
-	hiOut = (i/7)&1 == 0
+	pIn, pOut = atLo, atLo
+	if (i/3)&1 == 0 {
+		pIn = atHi
+	}
+	if (i/7)&1 == 0 {
+		pOut = atHi
+	}
+	if i%3 == 2 {
+		pIn, pOut = mis(i/3), mis(i/3+2)
+	}
 	return
 }
 
 // one runs a seal/open case for spec s on fresh random key, nonce, data, with the
 // dst modes and placements of position i of the cycle.
 func one(x *mon.Ctx, ar *arena, part string, s spec, n, al, i int) {
-	ms, mo, hiIn, hiOut := modePair(i)
-	oneModes(x, ar, part, s, n, al, ms, mo, hiIn, hiOut)
+	ms, mo, pIn, pOut := modePair(i)
+	oneModes(x, ar, part, s, n, al, ms, mo, pIn, pOut)
 }
 
-func oneModes(x *mon.Ctx, ar *arena, part string, s spec, n, al int, ms, mo dstMode, hiIn, hiOut bool) {
-	c := x.Begin("%s %v pt=%d aad=%d seal-dst=%v open-dst=%v inputs-hi=%v outputs-hi=%v", part, s, n, al, ms, mo, hiIn, hiOut)
+func oneModes(x *mon.Ctx, ar *arena, part string, s spec, n, al int, ms, mo dstMode, pIn, pOut pos) {
+	c := x.Begin("%s %v pt=%d aad=%d seal-dst=%v open-dst=%v inputs@%v outputs@%v", part, s, n, al, ms, mo, pIn, pOut)
 	if c == nil {
 		return
 	}
@@ -70,6 +88,10 @@ func oneModes(x *mon.Ctx, ar *arena, part string, s spec, n, al int, ms, mo dstM
 	}
 	c.Class("%s/%s/pt:%s/seal:%v", part, s.ctorClass(), lenClass(n), ms)
 	c.Class("%s/%s/aad:%s/open:%v", part, s.ctorClass(), lenClass(al), mo)
+	if pIn.misaligned() {
+		c.Class("%s/%s/%s/misaligned:in@%v,out@%v/pt:o%d.b%d", part, s.fam, s.blk, pIn, pOut, min(n/128, 2), n%128/16)
+		c.Event("cases_with_misaligned_buffers", 1)
+	}
 	key, nonce, pt, ad := c.R.Bytes(16), c.R.Bytes(s.ns), c.R.Bytes(n), c.R.Bytes(al)
 	var a cipher.AEAD
 	var err error
@@ -87,7 +109,7 @@ func oneModes(x *mon.Ctx, ar *arena, part string, s spec, n, al int, ms, mo dstM
 	c.Detail("key", key)
 	c.Detail("nonce", nonce)
 	want := s.ref(key, nonce, pt, ad)
-	sealOpen(c, ar, s, a, nonce, pt, ad, want, ms, mo, hiIn, hiOut)
+	sealOpen(c, ar, s, a, nonce, pt, ad, want, ms, mo, pIn, pOut)
 }
 
 // ---------------------------------------------------------------------------
@@ -140,10 +162,10 @@ func gcmGrid(x *mon.Ctx) {
 			for r := 1; r <= 16-ts; r++ {
 				n, s := 16*q+r, gcmSpec("lib", 12, ts)
 				al := aadCycle[(q+r)%len(aadCycle)]
-				oneModes(x, ar, "short-tag", s, n, al, dExact, dExact, true, true)         // Seal dst and Open input end at the guard page
-				oneModes(x, ar, "short-tag", s, n, al, dExact, dInPlaceTight, true, false) // Seal dst followed by a fence; Open in place, buffer ends at the guard page
-				oneModes(x, ar, "short-tag", s, n, al, dSpare, dNil, false, true)          // Seal into spare capacity; Open input ends at the guard page
-				oneModes(x, ar, "short-tag", s, n, al, dInPlaceTight, dSpare, false, true) // Seal in place, buffer ends at the guard page
+				oneModes(x, ar, "short-tag", s, n, al, dExact, dExact, atHi, atHi)        // Seal dst and Open input end at the guard page
+				oneModes(x, ar, "short-tag", s, n, al, dExact, dInPlaceTight, atHi, atLo) // Seal dst followed by a fence; Open in place, buffer ends at the guard page
+				oneModes(x, ar, "short-tag", s, n, al, dSpare, dNil, atLo, atHi)          // Seal into spare capacity; Open input ends at the guard page
+				oneModes(x, ar, "short-tag", s, n, al, dInPlaceTight, dSpare, atLo, atHi) // Seal in place, buffer ends at the guard page
 			}
 		}
 	}
@@ -285,9 +307,9 @@ func gcmWrap(x *mon.Ctx) {
 				}
 				ns := []int{16, 16, 32, 16, 48}[i%5]
 				s := gcmSpec(blk, ns, 16)
-				ms, mo, hiIn, hiOut := modePair(i)
+				ms, mo, pIn, pOut := modePair(i)
 				i++
-				c := x.Begin("wrap %v J0 low word=%08x pt=%d seal-dst=%v open-dst=%v inputs-hi=%v outputs-hi=%v", s, lw, n, ms, mo, hiIn, hiOut)
+				c := x.Begin("wrap %v J0 low word=%08x pt=%d seal-dst=%v open-dst=%v inputs@%v outputs@%v", s, lw, n, ms, mo, pIn, pOut)
 				if c == nil {
 					continue
 				}
@@ -311,6 +333,10 @@ func gcmWrap(x *mon.Ctx) {
 					c.Event("counter_wraps_inside_message", 1)
 				}
 				c.Class("wrap/%s/ns%d/%s/pt:%s", blk, ns, wrapClass, lenClass(n))
+				if pIn.misaligned() {
+					c.Class("wrap/%s/misaligned:in@%v,out@%v/%s", blk, pIn, pOut, wrapClass)
+					c.Event("cases_with_misaligned_buffers", 1)
+				}
 				c.Detail("key", key)
 				c.Detail("nonce", nonce)
 				c.Detail("J0", j0[:])
@@ -325,7 +351,7 @@ func gcmWrap(x *mon.Ctx) {
 				c.Event(fmt.Sprintf("impl %T", a), 1)
 				pt, ad := c.R.Bytes(n), c.R.Bytes(aadCycle[i%len(aadCycle)])
 				want := aead.GCMSeal(enc, nonce, pt, ad, 16)
-				sealOpen(c, ar, s, a, nonce, pt, ad, want, ms, mo, hiIn, hiOut)
+				sealOpen(c, ar, s, a, nonce, pt, ad, want, ms, mo, pIn, pOut)
 				c.Event("constructed_j0", 1)
 				c.End()
 			}
@@ -430,4 +456,164 @@ func tamperCase(x *mon.Ctx, ar *arena, s spec, n, al, stride int) {
 		return ok
 	}
 	tamperSweep(c, ar, s, a, refAccepts, nonce, want, ad, pt, stride)
+}
+
+// ---------------------------------------------------------------------------
+// block reuse
+
+// reuseSpecs: the AEAD flavours drawn on in a history. The first nine are the GCM
+// flavours whose ordered pairs are enumerated completely.
+func reuseSpecs() []spec {
+	l := []spec{gcmSpec("lib", 12, 16)}
+	for ts := 12; ts <= 15; ts++ {
+		l = append(l, gcmSpec("lib", 12, ts))
+	}
+	for _, ns := range []int{8, 13, 16, 32} {
+		l = append(l, gcmSpec("lib", ns, 16))
+	}
+	l = append(l, ccmSpec("lib", 12, 16, false), ccmSpec("lib", 12, 8, false), ccmSpec("lib", 7, 16, false), ccmSpec("lib", 13, 4, true),
+		ccmSpec("lib", 12, 12, true), gcmSpec("opaque", 12, 16), gcmSpec("opaque", 12, 13), gcmSpec("opaque", 16, 16), ccmSpec("opaque", 11, 10, true))
+	return l
+}
+
+// member is one AEAD of a history.
+type member struct {
+	s spec
+	a cipher.AEAD
+}
+
+// reuseStep makes member m seal and open one fresh message and judges it with the
+// reference for m's own parameters.
+func reuseStep(c *mon.Case, ar *arena, key []byte, m member, step int) {
+	if m.a.NonceSize() != m.s.ns || m.a.Overhead() != m.s.ts {
+		c.Fail("mismatch", "step %d: %v built on a shared block reports NonceSize()=%d Overhead()=%d", step, m.s, m.a.NonceSize(), m.a.Overhead())
+		// the nonce the object insists on may differ; using it would only be a documented precondition panic
+		if m.a.NonceSize() != m.s.ns {
+			return
+		}
+	}
+	n, al := ptCycle[c.R.Intn(len(ptCycle))], aadCycle[c.R.Intn(len(aadCycle))]
+	if c.R.Intn(3) == 0 {
+		n = c.R.Intn(300)
+	}
+	nonce, pt, ad := c.R.Bytes(m.s.ns), c.R.Bytes(n), c.R.Bytes(al)
+	want := m.s.ref(key, nonce, pt, ad)
+	ms, mo, pIn, pOut := modePair(c.R.Intn(1 << 20))
+	sealOpen(c, ar, m.s, m.a, nonce, pt, ad, want, ms, mo, pIn, pOut)
+	c.Event("reuse_steps", 1)
+	// quick negative: the message cut by one byte must be refused (unless the reference accepts it too)
+	if c.R.Intn(4) == 0 && len(want) > 0 {
+		var err error
+		bad := append([]byte{}, want[:len(want)-1]...)
+		if c.Call("Open of a message cut by one byte", func() { _, err = m.a.Open(nil, nonce, bad, ad) }) && err == nil {
+			ok := false
+			if m.s.fam == "gcm" {
+				_, ok = aead.GCMOpen(aead.SM4(key), nonce, bad, ad, m.s.ts)
+			} else {
+				_, ok = aead.CCMOpen(aead.SM4(key), nonce, bad, ad, m.s.ts)
+			}
+			if !ok {
+				c.Fail("accept", "step %d: %v accepted its message cut by one byte", step, m.s)
+			}
+		}
+	}
+}
+
+func reuse(x *mon.Ctx) {
+	selfTest(x)
+	ar := &arena{}
+	specs := reuseSpecs()
+	// A: every ordered pair (first, second) of the nine fused-path GCM flavours on one block, in three
+	//    interleavings: make both then use second, first, second; make/use first, make/use second, use first;
+	//    make first, make second, use first only after second was used twice
+	for fi := 0; fi < 9; fi++ {
+		for si := 0; si < 9; si++ {
+			for il := 0; il < 3; il++ {
+				for r := 0; r < x.Scale(1, 6); r++ {
+					c := x.Begin("reuse pair first=%v second=%v interleaving=%d rep=%d", specs[fi], specs[si], il, r)
+					if c == nil {
+						continue
+					}
+					c.Class("reuse/pair/%s->%s/il%d", specs[fi].ctorClass(), specs[si].ctorClass(), il)
+					key := c.R.Bytes(16)
+					c.Detail("key", key)
+					runHistory(c, ar, key, []spec{specs[fi], specs[si]}, [][]int{{-1, -2, 2, 1, 2}, {-1, 1, -2, 2, 1}, {-1, -2, 2, 2, 1, 2}}[il])
+					c.End()
+				}
+			}
+		}
+	}
+	// B: random histories over all flavours (GCM and CCM, own hook and opaque wrapper) on one block
+	for h := 0; h < x.Scale(300, 6000); h++ {
+		c := x.Begin("reuse history %d", h)
+		if c == nil {
+			continue
+		}
+		key := c.R.Bytes(16)
+		c.Detail("key", key)
+		k := c.R.Range(3, 6)
+		var ss []spec
+		for i := 0; i < k; i++ {
+			ss = append(ss, specs[c.R.Intn(len(specs))])
+		}
+		// script: negative = construct member -v, positive = use member v (only after its construction)
+		var script []int
+		made := 0
+		for len(script) < 4*k {
+			if made < k && (made == 0 || c.R.Intn(3) == 0) {
+				made++
+				script = append(script, -made)
+			} else {
+				script = append(script, c.R.Range(1, made))
+			}
+		}
+		for made < k {
+			made++
+			script = append(script, -made, made)
+		}
+		fams := map[string]bool{}
+		for _, s := range ss {
+			fams[s.fam+"/"+s.blk] = true
+		}
+		c.Class("reuse/history/members%d/kinds%d", k, len(fams))
+		c.Detail("members", fmt.Sprint(ss))
+		c.Detail("script", fmt.Sprint(script))
+		runHistory(c, ar, key, ss, script)
+		c.End()
+	}
+}
+
+// runHistory executes a script on ONE block made from key: -v constructs member v
+// (1-based) from the shared block, +v uses member v.
+func runHistory(c *mon.Case, ar *arena, key []byte, ss []spec, script []int) {
+	var blk cipher.Block
+	var err error
+	if !c.Call("sm4.NewCipher", func() { blk, err = newBlock(key) }) || err != nil {
+		if err != nil {
+			c.Fail("reject", "sm4.NewCipher: %v", err)
+		}
+		return
+	}
+	ms := make([]member, len(ss))
+	for step, v := range script {
+		if v < 0 {
+			s := ss[-v-1]
+			var a cipher.AEAD
+			if !c.Call(s.String(), func() { a, err = s.buildOn(blk) }) {
+				return
+			}
+			if err != nil {
+				c.Fail("reject", "step %d: %v refused valid parameters on a shared block: %v", step, s, err)
+				return
+			}
+			ms[-v-1] = member{s, a}
+			c.Event("reuse_constructions", 1)
+			c.Event(fmt.Sprintf("impl %T", a), 1)
+			continue
+		}
+		if ms[v-1].a == nil {
+			continue
+		}
+		reuseStep(c, ar, key, ms[v-1], step)
+	}
 }
